@@ -165,6 +165,64 @@ theorem final_core {f2 : Forest} {q : Nat} {vq : Value} {l1 : List HTree} {K : H
     rw [h3, hnr b r' rfl (by rw [hx]; rfl) (by rw [hy]; rfl)]
     exact (step_merge s2 hc2 (mergeAdj_mid_text hx hy r' t1)).symm
 
+theorem textOf_none_of_kid {g : Forest} {p : Nat} {v : Value} {X : List HTree} {K : HTree} {Y : List HTree}
+    (s : SiteAt g p v (X ++ K :: Y)) (h : K.value.isText = false) : g.textOf K.handle = none := by
+  rw [Forest.textOf_of_get s.getKid]
+  cases hd : textData K with
+  | none => rfl
+  | some z => rw [isText_iff_textData.2 ⟨z, hd⟩] at h; cases h
+
+/-- xot's `remove_consolidate(previous_sibling(N), N)` (the last step of `replace` since 609b613)
+    when `N` and the child `K` before it are not both text nodes: nothing happens. -/
+theorem prevStep_noop {g : Forest} {p : Nat} {v : Value} {X : List HTree} {K N : HTree} {Y : List HTree}
+    (s : SiteAt g p v ((X ++ [K]) ++ N :: Y)) (h : ¬ (K.value.isText = true ∧ N.value.isText = true)) :
+    (g.removeConsolidate (g.prevSibling N.handle) (some N.handle)).1 = g := by
+  rw [Forest.prevSibling_of_ctx s.ctx]
+  simp only [prevOf, List.getLast?_concat]
+  split
+  · have sK : SiteAt g p v (X ++ K :: (N :: Y)) := by
+      have : X ++ K :: (N :: Y) = (X ++ [K]) ++ N :: Y := by simp
+      rw [this]; exact s
+    cases hK : K.value.isText with
+    | false => rw [Forest.removeConsolidate_not_text_left (textOf_none_of_kid sK hK)]
+    | true =>
+      have hN : N.value.isText = false := by
+        cases hN : N.value.isText with
+        | false => rfl
+        | true => exact absurd ⟨hK, hN⟩ h
+      rw [Forest.removeConsolidate_not_text_right (textOf_none_of_kid s hN)]
+  · rw [Forest.removeConsolidate_none_left]
+
+/-- … and when both are text nodes: `N` is merged into `K`. -/
+theorem prevStep_merge {g : Forest} {p : Nat} {v : Value} {X : List HTree} {K N : HTree} {Y : List HTree}
+    (s : SiteAt g p v ((X ++ [K]) ++ N :: Y)) (hc : g.consolidation = true) {x y : Str}
+    (hK : K.value = .text x) (hN : N.value = .text y)
+    (hleaf : ∀ k ∈ N :: Y, k.value.isText = true → k.kids = []) :
+    (g.removeConsolidate (g.prevSibling N.handle) (some N.handle)).1 =
+      g.editAt (some p) (fun _ => X ++ K.setValue (.text (x ++ y)) :: Y) := by
+  have hKn : K.value.isNormal = true := PairAfter.text_normal (by rw [hK]; rfl)
+  have hNn : N.value.isNormal = true := PairAfter.text_normal (by rw [hN]; rfl)
+  have sK : SiteAt g p v (X ++ K :: (N :: Y)) := by
+    have : X ++ K :: (N :: Y) = (X ++ [K]) ++ N :: Y := by simp
+    rw [this]; exact s
+  have hprev : g.prevSibling N.handle = some K.handle := by
+    rw [Forest.prevSibling_of_ctx s.ctx]
+    simp [prevOf, PairAfter.normal_cat hKn, PairAfter.normal_cat hNn]
+  have hnext : g.nextSibling K.handle = some N.handle := by
+    rw [Forest.nextSibling_of_ctx sK.ctx]
+    exact PairAfter.nextOf_cons_normal hKn hNn
+  rw [hprev, ← hnext]
+  rcases lastStep sK hc hleaf with ⟨_, h4⟩ | ⟨b', r', x', y', er, hx, hy, h3⟩
+  · exact absurd ⟨by rw [hK]; rfl, by rw [hN]; rfl⟩ (h4 N rfl)
+  · injection er with e1 e2
+    subst e1 e2
+    rw [hK] at hx
+    rw [hN] at hy
+    injection hx with hx
+    injection hy with hy
+    subst hx hy
+    exact h3
+
 end PairAll
 
 /-! ### The forest after `insert_after` / `prepend`, and the last step -/
@@ -415,6 +473,126 @@ theorem mergeK_eq_mergeP (ps : PutSite f a b q vq l r t lX rX) (ht : t.handle = 
         rfl
     · rw [joinLeft_none hb]
       rfl
+
+/-- **xot's last step (since 609b613) when the replaced node had a next sibling** `N`: the node `N`
+    is consolidated with whatever stands before it now — the text node that took in the replacing
+    text, also when that is not the former left neighbour of the replaced node (which may have been
+    merged away when the replacing node left).  Together with `mergeNew` that is `mergeNew3`. -/
+theorem final_next (ps : PutSite f a b q vq l r t lX rX) (ht : t.handle = b) (hlX : lX ≠ [])
+    {N : HTree} {r0 : List HTree} (er : r = N :: r0) :
+    (((replMid f a b q t).mergeNewAt q b).removeConsolidate
+        (((replMid f a b q t).mergeNewAt q b).prevSibling N.handle) (some N.handle)).1 =
+      (replMid f a b q t).mergeNew3At q b := by
+  subst ht
+  cases hc : f.consolidation with
+  | false =>
+    have cX : (replMid f a t.handle q t).consolidation = false := by rw [replMid_consolidation]; exact hc
+    have c2 := cons2 f a t.handle q t
+    rw [hc] at c2
+    rw [Forest.removeConsolidate_off c2, Forest.mergeNewAt_off cX]
+    unfold Forest.mergeNew3At
+    rw [cX]
+    rfl
+  | true =>
+    have cX : (replMid f a t.handle q t).consolidation = true := by rw [replMid_consolidation]; exact hc
+    have c2 := cons2 f a t.handle q t
+    rw [hc] at c2
+    have s2 := ps.site2 hc
+    obtain ⟨tl, tr⟩ := ps.tops rfl
+    obtain ⟨l1, x', elX⟩ : ∃ l1 x', lX = l1 ++ [x'] := by
+      rcases List.eq_nil_or_concat lX with e | ⟨l1, x', e⟩
+      · exact absurd e hlX
+      · exact ⟨l1, x', by rw [e, List.concat_eq_append]⟩
+    rcases ps.right with ⟨e1, _⟩ | ⟨N0, r0', N', r1, e1, erX, hN, hNt⟩
+    · rw [er] at e1; cases e1
+    · have eN : N0 = N := by
+        rw [er] at e1
+        injection e1 with h _
+        exact h.symm
+      subst eN
+      subst elX erX
+      have hl1 : ∀ k ∈ l1, k.handle ≠ t.handle := fun k hk => tl k (by simp [hk])
+      have hx't : x'.handle ≠ t.handle := tl x' (by simp)
+      have eM : (l1 ++ [x']) ++ t :: N' :: r1 = l1 ++ x' :: t :: N' :: r1 := by simp
+      have hleafN : ∀ k ∈ N' :: r1, k.value.isText = true → k.kids = [] := ps.leafR
+      unfold Forest.mergeNew3At
+      rw [cX, if_pos rfl, ← hN]
+      by_cases hb : x'.value.isText = true ∧ t.value.isText = true
+      · -- the replacing text has been merged into the text node before it
+        obtain ⟨s, hs⟩ := text_of_isText hb.1
+        obtain ⟨v, hv⟩ := text_of_isText hb.2
+        rw [eM, mergeNew_mid_left hs hv l1 (N' :: r1) hl1 hx't] at s2
+        have s2' : SiteAt ((replMid f a t.handle q t).mergeNewAt q t.handle) q vq
+            ((l1 ++ [x'.setValue (.text (s ++ v))]) ++ N' :: r1) := by
+          have : (l1 ++ [x'.setValue (.text (s ++ v))]) ++ N' :: r1 = l1 ++ x'.setValue (.text (s ++ v)) :: N' :: r1 := by
+            simp
+          rw [this]; exact s2
+        by_cases hNt' : N'.value.isText = true
+        · obtain ⟨w, hw⟩ := text_of_isText hNt'
+          rw [prevStep_merge s2' c2 (setValue_value _ _) hw hleafN, Forest.mergeNewAt_on cX, Forest.editAt_editAt]
+          apply ps.site.congr
+          simp only [Function.comp]
+          rw [eM, mergeNew3_mid (N' :: r1) l1 hl1 hx't, joinLeft_text hs hv]
+          simp only [Option.map_some, Option.getD_some]
+          rw [absorbNext_cons, joinLeft_text (setValue_value _ _) hw]
+          rfl
+        · rw [prevStep_noop s2' (fun h => hNt' h.2), Forest.mergeNewAt_on cX]
+          apply ps.site.congr
+          rw [eM, mergeNew_mid (N' :: r1) l1 hl1 hx't, mergeNew3_mid (N' :: r1) l1 hl1 hx't, joinLeft_text hs hv]
+          simp only [Option.map_some, Option.getD_some]
+          rw [absorbNext_cons, joinLeft_none (fun h => hNt' h.2)]
+          rfl
+      · -- the replacing node stands behind its left neighbour, unmerged: nothing left to do
+        have hspec : (replMid f a t.handle q t).editAt (some q) (mergeNew3 t.handle) =
+            (replMid f a t.handle q t).mergeNewAt q t.handle := by
+          rw [Forest.mergeNewAt_on cX]
+          apply ps.site.congr
+          rw [eM, mergeNew_mid (N' :: r1) l1 hl1 hx't, mergeNew3_mid (N' :: r1) l1 hl1 hx't, joinLeft_none hb]
+          rfl
+        rw [hspec]
+        rw [eM, mergeNew_mid_right hb l1 (N' :: r1) hl1 hx't] at s2
+        by_cases hb2 : t.value.isText = true ∧ N'.value.isText = true
+        · obtain ⟨u, hu⟩ := text_of_isText hb2.1
+          obtain ⟨w, hw⟩ := text_of_isText hb2.2
+          rw [mergeNewHead_text hu hw] at s2
+          have s2' : SiteAt ((replMid f a t.handle q t).mergeNewAt q t.handle) q vq
+              ((l1 ++ [x']) ++ N'.setValue (.text (u ++ w)) :: r1) := by
+            have : (l1 ++ [x']) ++ N'.setValue (.text (u ++ w)) :: r1 = l1 ++ x' :: N'.setValue (.text (u ++ w)) :: r1 := by
+              simp
+            rw [this]; exact s2
+          have := prevStep_noop s2' (fun h => hb ⟨h.1, hb2.1⟩)
+          rw [setValue_handle] at this
+          exact this
+        · rw [mergeNewHead_other hb2] at s2
+          have s2' : SiteAt ((replMid f a t.handle q t).mergeNewAt q t.handle) q vq
+              (((l1 ++ [x']) ++ [t]) ++ N' :: r1) := by
+            have : ((l1 ++ [x']) ++ [t]) ++ N' :: r1 = l1 ++ x' :: t :: N' :: r1 := by simp
+            rw [this]; exact s2
+          exact prevStep_noop s2' hb2
+
+/-- The replaced node was the last child: after `mergeNew` nothing is left to do (`mergeNew3`). -/
+theorem final_last (ps : PutSite f a b q vq l r t lX rX) (ht : t.handle = b) (er : r = []) :
+    (replMid f a b q t).mergeNewAt q b = (replMid f a b q t).mergeNew3At q b := by
+  subst ht
+  unfold Forest.mergeNew3At Forest.mergeNewAt
+  split
+  · obtain ⟨tl, tr⟩ := ps.tops rfl
+    rcases ps.right with ⟨_, erX⟩ | ⟨N0, r0', N', r1, e1, _, _, _⟩
+    · subst erX
+      apply ps.site.congr
+      rcases List.eq_nil_or_concat lX with e | ⟨l1, x', e⟩
+      · subst e
+        simp only [List.nil_append]
+        rw [mergeNew_head [] (fun _ h => by cases h), mergeNew3_head [] (fun _ h => by cases h)]
+      · rw [List.concat_eq_append] at e
+        subst e
+        have hl1 : ∀ k ∈ l1, k.handle ≠ t.handle := fun k hk => tl k (by simp [hk])
+        have hx't : x'.handle ≠ t.handle := tl x' (by simp)
+        have eM : (l1 ++ [x']) ++ [t] = l1 ++ x' :: t :: [] := by simp
+        rw [eM, mergeNew_mid [] l1 hl1 hx't, mergeNew3_mid [] l1 hl1 hx't]
+        cases joinLeft x' t <;> rfl
+    · rw [er] at e1; cases e1
+  · rfl
 
 end PutSite
 end XotModel
